@@ -11,7 +11,7 @@ from vlib import fitgen, refmodels, synth
 PROPERTY = "C01"
 SHARDS = {"quick": 8, "thorough": 16}
 RULE = ("Hypothesis draws (shipped model, parameter vector strictly inside the bounds with E over 4 decades, "
-        "sampling linear/jittered/quadratic with 60-1500 points per segment, segment approach/retract, "
+        "sampling linear/jittered/dithered (non-monotonic, neighbours swapped)/quadratic with 60-1500 points per segment, segment approach/retract, "
         "weighting distance 0..5e-6, minimizer leastsq/nelder, noise level 0 or 1e-4..3e-2 of the force "
         "range, initial guess inside the basin: modulus within a factor 2, contact point within 5 % of the "
         "depth, baseline within 5 % of the force range; optionally a prior fit on the same object whose request differs in "
@@ -40,6 +40,7 @@ ASSUMPTIONS = [
 @st.composite
 def st_case(draw):
     curve = draw(synth.st_curve(st, n_range=(60, 1500), with_tip=True,
+                                sampling=("linear", "jitter", "dither", "quadratic"),
                                 noise=st.sampled_from([0.0, 0.0, 0.0, 1e-4, 1e-3, 1e-2, 3e-2])))
     wcp = draw(st.sampled_from([0, False, 1e-8, 1e-7, 5e-7, 1e-6, 2e-6, 5e-6]))
     if curve["noise"] and wcp:
@@ -52,7 +53,9 @@ def st_case(draw):
            "cp_off": draw(sgn) * draw(st.floats(0.0, 0.05)),
            "bl_off": draw(sgn) * draw(st.floats(0.0, 0.05)),
            # a different fit performed on the same object first: the measured fit must not see its leftovers
-           "prior": draw(st.sampled_from([None, None, "bounds", "vary", "weight", "range", "expr"]))}
+           "prior": draw(st.sampled_from([None, None, "bounds", "vary", "weight", "range", "expr"])),
+           # order in which the keywords are written in the call (fit_model(**kwargs) sees it)
+           "kw_order": draw(st.sampled_from(["model_first", "params_first", "reverse_alpha"]))}
     if draw(st.integers(0, 7)) == 0:
         # coarse sampling: the fitted segment holds only a handful of points ("any sampling"): noise-free,
         # unweighted, leastsq, half baseline / half indentation
@@ -76,6 +79,19 @@ def sensitivity(curve):
     p2["E_S"] *= 1.01
     f2 = refmodels.force(model, a["tip"], p2)
     return float(np.max(np.abs(f2 - a["clean"])) / (0.01 * a["frange"]))
+
+
+def ordered_kwargs(kw, order):
+    """the same keywords, written in another order"""
+    if order == "params_first":
+        keys = ["params_initial"] + [k for k in kw if k != "params_initial"]
+    elif order == "reverse_alpha":
+        keys = sorted(kw, reverse=True)
+    else:
+        keys = [k for k in kw if k != "params_initial"] + ["params_initial"]
+        keys.remove("model_key")
+        keys.insert(0, "model_key")
+    return {k: kw[k] for k in keys}
 
 
 def measure(case):
@@ -110,7 +126,7 @@ def measure(case):
             idnt.fit_model(params_initial=p0, **kw0)
         except BaseException:  # noqa: the prior fit is only history
             pass
-    idnt.fit_model(params_initial=pi, **kw)
+    idnt.fit_model(**ordered_kwargs(dict(kw, params_initial=pi), cfg.get("kw_order")))
     fp = idnt.fit_properties
     a = synth.arrays(curve)
     t = curve["params"]
